@@ -151,9 +151,8 @@ def copies_stage(rep, quick):
     run_states(rep, "C07", sts, "str", {}, "copies")
     sts2 = labelled(rep, max_nodes=3, d=2, xids=(0, 11), label="copies:ids")
     run_states(rep, "C07", sts2, "str", {}, "copies-ids")
-    if not quick:
-        sts3 = labelled(rep, max_nodes=3, d=2, typed=True, kinds=(0, 2), label="copies:typed")
-        run_states(rep, "C07", sts3, "str+typed", {}, "copies-typed")
+    sts3 = labelled(rep, max_nodes=3, d=2, typed=True, kinds=(0, 2), label="copies:typed")
+    run_states(rep, "C07", sts3 if not quick else sts3[::4], "str+typed", {}, "copies-typed")
 
 
 def run(prop: str, tier: str) -> int:
